@@ -100,16 +100,17 @@ def run_scenarios(testbin, scenarios, work, pkg='store', shards=NCPU, timeout=90
         with open(inp, 'w') as f:
             for s in part:
                 f.write(json.dumps(s) + '\n')
-        cmd = [testbin, '-test.run', '^%s$' % runname, '-test.timeout', '%ds' % timeout,
+        tmo = max(timeout, 300 + 6 * len(part))      # thorough tiers run thousands of scenarios per shard
+        cmd = [testbin, '-test.run', '^%s$' % runname, '-test.timeout', '%ds' % tmo,
                '-verif.in', inp, '-verif.out', outp, '-verif.work', wd]
         logf = open(os.path.join(work, 'run-%d.log' % i), 'w')
         p = subprocess.Popen(cmd, cwd=os.path.join(REPO, pkg), stdout=logf, stderr=subprocess.STDOUT, env=GOENV)
-        procs.append((p, outp, logf, part, i))
+        procs.append((p, outp, logf, part, i, tmo))
     traces = {}
     crashed = []
-    for p, outp, logf, part, i in procs:
+    for p, outp, logf, part, i, tmo in procs:
         try:
-            rc = p.wait(timeout=timeout + 60)
+            rc = p.wait(timeout=tmo + 60)
         except subprocess.TimeoutExpired:
             p.kill()
             rc = -9
